@@ -91,3 +91,10 @@ func leanBytes(s string) string {
 	sb.WriteByte(']')
 	return sb.String()
 }
+
+func repoRoot() string {
+	if r := os.Getenv("VERIF_REPO"); r != "" {
+		return r
+	}
+	return "/repo"
+}
